@@ -33,6 +33,11 @@ pub fn run_case(case: &J) -> Vec<J> {
     // lint
     let lints: Vec<String> = ast.lint(None).iter().map(|l| format!("{} [{}]", l, l.short_name)).collect();
     log(json!(["lint", lints]));
+    // name-resolution lints: the known globals are the standard ones only, so the harness natives
+    // (emit, opaque, attempt, ...) count as undefined names wherever the file uses them
+    let std_names: std::collections::HashSet<String> = starlark::environment::Globals::standard().names().map(|n| n.as_str().to_owned()).collect();
+    let lints_names: Vec<String> = ast.lint(Some(&std_names)).iter().map(|l| format!("{} [{}]", l, l.short_name)).collect();
+    log(json!(["lint_names", lints_names]));
     // typecheck (twice in-process: must be identical)
     let mut renders = Vec::new();
     let mut iface_keep = None;
